@@ -236,7 +236,19 @@ def mutate(recs, rng):
     """One labelled single-token edit; returns (new_recs, label)."""
     recs = [dict(r) for r in recs]
     n = len(recs)
-    op = rng.choice(["del", "ins", "rep", "swap", "strkw"] if n > 1 else ["ins", "rep", "strkw"])
+    op = rng.choice(["del", "ins", "rep", "swap", "strkw", "trunc", "dollar"] if n > 1 else ["ins", "rep", "strkw"])
+    if op == "trunc":
+        i = rng.randrange(1, n)
+        return recs[:i], "trunc", i
+    if op == "dollar":
+        # a variable where the token was a name / scalar: valid only in non-const value positions (TLC decides)
+        idx = [i for i, r in enumerate(recs) if r["k"] in ("name", "int", "string") and (i == 0 or recs[i - 1]["k"] != "$")]
+        if idx:
+            i = rng.choice(idx)
+            old = recs[i]["v"] if recs[i]["k"] == "name" else recs[i]["k"]
+            recs[i:i + 1] = [{"k": "$", "v": ""}, {"k": "name", "v": "ident"}]
+            return recs, "dollar:%s" % old, i
+        op = "rep"
 
     def kd(r):
         return r["v"] if r["k"] == "name" else r["k"]
@@ -392,5 +404,5 @@ def fixture_traces(repo):
             evi = astproj.events_with_token_index(ev, recs, len(utext))
             toks = [{"k": r["k"], "v": r["v"]} for r in recs]
             base = {"toks": toks, "start": "Document", "ts": True, "fv": False}
-            out.append((uname, dict(base, ev=[], ce=False), dict(base, ev=evi, ce=True)))
+            out.append((uname, dict(base, ev=[], ce=False, ck=False), dict(base, ev=evi, ce=True, ck=False)))
     return out
